@@ -11356,6 +11356,13 @@ class TensorDictBase(MutableMapping):
         if is_compiling():
             self.clear_refs_for_compile_()
         if exc_type is not None and issubclass(exc_type, Exception):
+            # The body raised: the record pushed by __enter__ must not stay in the queue,
+            # and parameters that were swapped into a module must be swapped back (the
+            # module would otherwise be left without its own parameters and buffers).
+            _last_op = self._last_op_queue.pop()
+            if _last_op is not None and _last_op[0] == "to_module":
+                last_op, (args, kwargs, out_wr) = _last_op
+                LAST_OP_MAPS[last_op](self, args, kwargs, out_wr())
             return False
         _last_op = self._last_op_queue.pop()
         if _last_op is not None:
